@@ -212,6 +212,30 @@ def size_fn(ctx, report):
                 else:
                     why = why + " / length mirror: " + "; ".join(probs or ["not a list header"])
     if not ok and len(rets) == 1:
+        # idiom 5: Header{list: true, payload_length: L}.length() + L (= length_with_payload), L mirrored against encode()'s emissions
+        bb, idx, node = rets[0]
+        rv = getattr(node, "rv", None)
+        if rv is not None:
+            from rules.c01 import record_emissions
+            from rules.emit import length_mirror
+            from kernel import unmut, E
+            e = strip(an.rvalue_expr(rv, bb, idx))
+            atoms, cst = guards.linear(e, const_int, strip)
+            hl = [a for a in map(strip, atoms) if a.k == "call" and a.a[0].name == "length" and "Header" in a.a[0].fn and a.a[1]]
+            if cst == 0 and len(hl) == 1:
+                hv = unmut(strip(hl[0].a[1][0]))
+                rest = [a for a in atoms if strip(a) is not hl[0]]
+                rec = record_emissions(ctx)
+                if rec is not None and hv.k == "agg" and hv.a[0].endswith("Header::Header") and rest:
+                    lst = strip(hv.a[1].get("list"))
+                    L_atoms, L_cst = guards.linear(hv.a[1].get("payload_length"), const_int, strip)
+                    same = L_cst == 0 and sorted(repr(unmut(strip(a))) for a in L_atoms) == sorted(repr(unmut(strip(a))) for a in rest)
+                    probs = length_mirror(ctx, hv.a[1].get("payload_length"), rec[0], rec[1], lambda e_: e_.k == "param" and e_.a[0] == 1)
+                    if lst.k == "const" and lst.a[0] == 1 and same and not probs:
+                        ok = True
+                    else:
+                        why = why + " / header.length() + payload length: " + "; ".join(probs or (["not a list header"] if same else ["the two payload lengths differ"]))
+    if not ok and len(rets) == 1:
         # idiom 2: Header{list: true, payload_length: len(P)}.length() + len(P), P filled only by append_rlp_content(self, _, true)
         ok2, why2 = size_by_header_arithmetic(ctx, f, an, rets[0])
         if ok2:
